@@ -69,25 +69,30 @@ def run(model, res, tier):
     res.rule('R10', 'the token rules of the operator and parenthesis tokens only hand the token on: no condition, no raise, no state - every lexeme of the formula reaches the parser whatever came before it')
     res.rule('R11', 'a comparison node evaluates to the relation of the defined order on its two operands (the exact value of the tree; '
              'shared with C07.R1/R2)')
+    res.rule('R12', 'the tree is built by the grammar from the formula as written: no rewriting pass in front of the lexer (shared with C05.R9), and '
+             'every path of parse() for a non-empty formula hands it to the grammar parser (no guard that answers for the grammar)')
     res.rule('R9', 'the parse consumes a private token stream: the tree is built from all tokens of the formula even when a callback evaluates another formula (shared with C03.R1)')
     res.assumptions += ['A3 ply 3.11: function tokens are tried in definition order; yacc resolves S/R conflicts by the precedence table']
     res.trusted += ['ply.yacc Grammar/LRGeneratedTable as table generator', 'CPython ast', 're._parser']
-    _r1(model, res, g)
-    _r3(model, res, g)
+    H.safely(res, 'R1', 'r1', _r1, model, res, g)
+    H.safely(res, 'R3', 'r3', _r3, model, res, g)
     if any(f_.rule == 'R3' for f_ in res.findings):
         # without one E : E op E production per operator the automaton has no completed operator items to examine
         res.notes.append('C04.R2 not evaluated: the production shapes it is defined on are violated (R3)')
     else:
         _r2(model, res, g)
-    _r4(model, res, c, g)
-    _r5(model, res, c, g)
-    _r6(model, res, g)
-    _r7(model, res, g)
+    H.safely(res, 'R4', 'r4', _r4, model, res, c, g)
+    H.safely(res, 'R5', 'r5', _r5, model, res, c, g)
+    H.safely(res, 'R6', 'r6', _r6, model, res, g)
+    H.safely(res, 'R7', 'r7', _r7, model, res, g)
     from . import c03
     c03._r1(model, res, c, 'R9')
     from . import c07
     H.borrow(res, 'R11', 'comparison kernels', lambda tmp: c07.kernel_rules(model, tmp, c))
-    _r10(model, res, g)
+    from . import c05
+    H.borrow(res, 'R12', 'text hand-over', lambda tmp: c05._r9(model, tmp, c))
+    H.safely(res, 'R12', 'parse() always parses', _r12, model, res, c)
+    H.safely(res, 'R10', 'r10', _r10, model, res, g)
     if tier == 'thorough':
         _r8(model, res, g)
 
@@ -273,6 +278,17 @@ def _r3(model, res, g):
         res.violation('R3', 'grammar:unary-production', g.gm.where(un[0].func) if un else g.gm.where(g.gcls),
                       'the unary-minus production must carry %%prec of a level above every binary operator (found %s)'
                       % [(p.prec, lv.get(p.prec)) for p in un])
+    # any other prefix operator (a unary plus ...) binds as tight: its production takes the precedence of %prec, else of its token
+    for p in g.productions:
+        if p.name == E and len(p.syms) == 2 and p.syms[1] == E and p.syms[0] in g.tokens and p.syms != ['MINUS', E]:
+            level = lv.get(p.prec) if p.prec is not None else lv.get(p.syms[0])
+            okp = level is not None and all(level > lv[t] for t in BINARY if t in lv)
+            res.ob('R3', 'grammar', '%s : %s %s binds above every binary operator' % (E, p.syms[0], E), okp, 'level %s' % level)
+            if not okp:
+                res.violation('R3', 'grammar:prefix-production:%s' % p.syms[0], g.gm.where(p.func),
+                              'the prefix production %s : %s %s has the precedence of %s (level %s), not one above every binary operator: after '
+                              '* or / the operand of the prefix operator swallows what follows (8/+4*2 is read as 8/(+(4*2)))'
+                              % (E, p.syms[0], E, p.prec or 'its token ' + p.syms[0], level), func=p.funcname)
     par = [p for p in g.productions if p.syms == ['LPAREN', E, 'RPAREN'] and p.name == E]
     res.ob('R3', 'grammar', '%s : LPAREN %s RPAREN' % (E, E), len(par) == 1)
     if len(par) != 1:
@@ -791,3 +807,66 @@ def _r8(model, res, g):
                                       case=' '.join(toks))
     res.ob('R8', 'LR driver', '%d token strings (1-3 operators, unary minus, parentheses) parsed and compared' % n, bad == 0)
     res.floor('token strings driven through the LR tables', n, 1000)
+
+
+# ---------------------------------------------------------------------------------------------------
+# R12: parse() has no answer of its own for a non-empty formula
+
+def _r12(model, res, c):
+    from ..paths import function_paths, atoms, TooManyPaths
+    from ..callgraph import fmt
+    root = c.root
+    m, f = c.cg.funcs[root]
+    ps = sa.params(f)
+    if len(ps) < 2:
+        raise AnalysisError('parse() has no text parameter (anchor vanished)')
+    text_p = ps[1]
+    # call sites in parse() that reach the grammar parser's parse (the function that calls ply)
+    ply_callers = set()
+    for k, (m2, f2) in c.cg.funcs.items():
+        for n in ast.walk(f2):
+            if isinstance(n, ast.Call) and isinstance(n.func, ast.Attribute) and n.func.attr == 'parse' and \
+                    isinstance(n.func.value, ast.Attribute) and n.func.value.attr in c.cg.yacc_attrs:
+                ply_callers.add(k)
+    # ... directly or through helpers of parse()
+    reaching = set(k for k in c.cg.funcs if k in ply_callers or (c.cg.reachable([k]) & ply_callers))
+    sites = [n for n in walk_no_defs(f) if isinstance(n, ast.Call) and (c.cg.sites.get((root, id(n)), set()) & reaching)]
+    consts = m.constants
+    res.floor('calls of the grammar parser in parse()', len(sites), 1)
+    try:
+        paths = function_paths(f)
+    except TooManyPaths:
+        res.ob('R12', fmt(root), 'paths of parse()', True, 'undecided: too many paths')
+        return
+    n = 0
+    for p in paths:
+        if p.kind() != 'return':
+            continue
+        nodes = p.nodes()
+        parsed = any(any(x is sx for x in ast.walk(nd)) for nd in nodes for sx in sites)
+        if parsed:
+            continue
+        if any(it[0] == 'exc' for it in p.items):
+            continue        # left the try before the call by an exception
+        empty = False
+        for t_, v_ in p.conds():
+            for a_, tv_ in atoms(t_, v_):
+                # expression == ''  (true)  /  not expression  (true)  /  expression (false)
+                if isinstance(a_, ast.Compare) and len(a_.ops) == 1 and isinstance(a_.ops[0], ast.Eq) and tv_ and \
+                        any(isinstance(x, ast.Name) and x.id == text_p for x in (a_.left, a_.comparators[0])) and \
+                        any((isinstance(x, ast.Constant) and x.value in ('', None)) or
+                            (isinstance(x, ast.Name) and isinstance(consts.get(x.id), ast.Constant) and consts[x.id].value in ('', None))
+                            for x in (a_.left, a_.comparators[0])):
+                    empty = True
+                if isinstance(a_, ast.Name) and a_.id == text_p and not tv_:
+                    empty = True
+        if empty:
+            continue
+        n += 1
+        res.ob('R12', fmt(root), 'a path for a non-empty formula without the grammar parser: %s' % p.describe()[:100], False)
+        res.violation('R12', '%s:%s:answer-without-parsing' % root, m.where(p.terminal[1]) if p.terminal[1] is not None else m.where(f),
+                      'parse() returns on the path %s without handing the formula to the grammar parser: whatever that path tests (length, nesting '
+                      'depth, a cache ...) decides the outcome instead of the structure the grammar gives the formula - e.g. redundant '
+                      'parentheses then change the value' % p.describe()[:160], case=p.describe()[:200], func=root[1])
+    if n == 0:
+        res.ob('R12', fmt(root), 'every path of parse() for a non-empty formula runs the grammar parser', True)
